@@ -30,6 +30,10 @@ type c07Case struct {
 	Batches  []c07Op     `json:"batches"`
 	FlushAt  [][]int     `json:"flush_at"` // per flusher goroutine: pauses (us) between Flush calls
 	Procs    int         `json:"procs,omitempty"`
+	// EndWithStop: the run ends with Stop instead of a final Flush, while
+	// earlier flushes may still be queued or in flight and the last batches are
+	// still buffered: the shutdown flush is part of the same acceptance order
+	EndWithStop bool `json:"end_with_stop,omitempty"`
 }
 
 func genC07() *rapid.Generator[c07Case] {
@@ -66,6 +70,7 @@ func genC07() *rapid.Generator[c07Case] {
 			c.FlushAt = append(c.FlushAt, ps)
 		}
 		c.Procs = pick(t, "procs", []int{0, 2, 4})
+		c.EndWithStop = chance(t, "endstop", 40)
 		return c
 	})
 }
@@ -296,8 +301,27 @@ func runC07(c c07Case) *Violation {
 	}
 	wg.Wait()
 	atomic.StoreInt32(&ingestDone, 1)
-	// final barrier: one more Flush, then everything must be answered
-	if err := eng.Flush(bg); err == nil {
+	if c.EndWithStop {
+		// the observer keeps judging every acknowledgement while Stop drains
+		sctx, cancel := context.WithTimeout(bg, 20*time.Second)
+		serr := eng.Stop(sctx)
+		cancel()
+		if serr == nil {
+			mu.Lock()
+			all := append([]*WBatch(nil), order...)
+			mu.Unlock()
+			for _, e := range all {
+				if e.ChanKind == "nil" || e.Kind == "empty" {
+					continue
+				}
+				if _, ok := answeredWithGrace(e); !ok {
+					setViol(violf("Stop returned nil but batch #%d (%s) has not been answered", e.N, e.Kind))
+				}
+			}
+		}
+		Ev.Class("ended-with-stop")
+	} else if err := eng.Flush(bg); err == nil {
+		// final barrier: one more Flush, then everything must be answered
 		mu.Lock()
 		all := append([]*WBatch(nil), order...)
 		mu.Unlock()
@@ -334,7 +358,7 @@ func runC07(c c07Case) *Violation {
 }
 
 func TestC07(t *testing.T) {
-	Ev.Rule = "case = one ingester issuing 2-9 batches (good / empty / unmarshalable; buffered done channels, at most one unbuffered channel whose receiver arrives 150-220 ms late) in a known acceptance order, 0-2 goroutines calling Flush 1-3 times, stores with 0.3-3 ms latency per call so flushes are queued or in flight, flush triggers by rows / bytes / partition limits / time and ack-only flushes, GOMAXPROCS varied. Oracle: an observer polls the done channels newest-first; on receiving nil for a non-empty batch k every earlier non-empty accepted batch must already hold/have delivered a value, and every earlier nil-acked batch (and k) must be visible to a query issued at that moment; when Flush returns nil the same holds for every batch accepted before Flush was called. Non-trivial: an ack or a Flush return was observed while a flush was in flight (CreateFile started, Update not finished); distinct by case."
+	Ev.Rule = "case = one ingester issuing 2-9 batches (good / empty / unmarshalable; buffered done channels, at most one unbuffered channel whose receiver arrives 150-220 ms late) in a known acceptance order, 0-2 goroutines calling Flush 1-3 times, the run ending with a final Flush or (40%) with Stop while flushes are still queued, stores with 0.3-3 ms latency per call so flushes are queued or in flight, flush triggers by rows / bytes / partition limits / time and ack-only flushes, GOMAXPROCS varied. Oracle: an observer polls the done channels newest-first; on receiving nil for a non-empty batch k every earlier non-empty accepted batch must already hold/have delivered a value, and every earlier nil-acked batch (and k) must be visible to a query issued at that moment; when Flush returns nil the same holds for every batch accepted before Flush was called. Non-trivial: an ack or a Flush return was observed while a flush was in flight (CreateFile started, Update not finished); distinct by case."
 	Ev.Assumptions = []string{"empty batches are acknowledged immediately by design (documented) and carry no ordering obligation; error answers are exempt by the statement", "a late unbuffered receiver is given 40 ms to record a value it has already received"}
 	runChecks(t, "schedules", 200, 5000, genC07(), runC07)
 }
